@@ -121,4 +121,9 @@ Lemma f37_refuted :
      step5 s1 (p5 Q1 1) = Ok (s2, Wrote5 (Some (P5Publish (mkPub5 Q1 2 1 1 None)))))
   /\ (exists s', step5 (init5 2 false) (Inc5 (P5ConnAck true 0 (Some 0) None)) = Err (s', E5ConnFail 130) /\
      s5_max s' = 2 /\ s5_last_pkid s' = 0).
-Proof. split; [|split]; repeat eexists; vm_compute; reflexivity. Qed.
+Proof.
+  split; [|split].
+  - eexists. eexists. eexists. vm_compute. repeat split.
+  - eexists. eexists. eexists. vm_compute. repeat split.
+  - eexists. vm_compute. repeat split.
+Qed.
